@@ -46,27 +46,14 @@ def run(prog: Program, res: Result, tier: str) -> None:
         okl = node is not None and "locals={'temp': types.f8}" in norm(node)
         (res.ok if ok and okl else res.bad)("R1", None, node, f"{tw} = njit({of}.py_func, ..., locals temp: f8)" if ok and okl else
                                             f"{tw} is not compiled from {of}.py_func with the float64 accumulator", construct=tw, key=tw, where=f"{K}::{tw}")
-    # wrappers in stats
-    d1 = prog.func(S, "downsample_1d")
-    src = norm(d1.node)
-    ok = "if method == 'mean': return kernels.downsample_1d_mean(array, factor)" in src and \
-        "nsamps_new = array.size // factor * factor" in src and "return np.median(array[:nsamps_new].reshape(-1, factor), axis=1)" in src
-    (res.ok if ok else res.bad)("R1", d1, d1.node, "mean -> kernel; median over array[:(n//f)*f].reshape(-1, f) (full groups only)" if ok else
-                                "downsample_1d: dispatch / full-group median changed", construct="downsample_1d", key="downsample_1d")
-    d2 = prog.func(S, "downsample_2d")
-    src = norm(d2.node)
-    ok = "new_dim1 = dim1 // factor1" in src and "new_dim2 = dim2 // factor2" in src and "new_shape = (new_dim1, factor1, new_dim2, factor2)" in src and \
-        "array[:new_dim1 * factor1, :new_dim2 * factor2].reshape(new_shape), axis=(1, 3)" in src and "np_op = getattr(np, method)" in src and \
-        "if method not in {'mean', 'median'}:" in src
-    (res.ok if ok else res.bad)("R1", d2, d2.node, "2-D: full (f1 x f2) groups only, reduced over the two group axes with np.mean/np.median" if ok else
-                                "downsample_2d: group reshape / reduction axes changed", construct="downsample_2d", key="downsample_2d")
-    df = prog.func(S, "downsample_2d_flat")
-    src = norm(df.node)
-    ok = "if method == 'mean': return kernels.downsample_2d_mean_flat(array, factor1, factor2, dim1, dim2)" in src and \
-        "arr_2d = array.reshape(dim1, dim2)[:new_dim1 * factor1, :new_dim2 * factor2]" in src and \
-        "result = np.median(arr_2d.reshape(new_shape), axis=(1, 3))" in src and "if len(array) != dim1 * dim2:" in src
-    (res.ok if ok else res.bad)("R1", df, df.node, "flat 2-D: same slots forwarded to the kernel; median over the same full groups" if ok else
-                                "downsample_2d_flat: forwarding / median grouping changed", construct="downsample_2d_flat", key="downsample_2d_flat")
+    # wrappers in stats: compared with their reference definitions (modulo temporaries / normal form)
+    for name in ("downsample_1d", "downsample_2d", "downsample_2d_flat"):
+        fn = prog.func(S, name)
+        verdict, why = kernelspec.compare(fn, name)
+        if verdict == "incomparable":
+            raise AnalysisError(f"{name} cannot be compared with its reference definition: {why[0]}")
+        (res.ok if verdict == "same" else res.bad)("R1", fn, fn.node, (f"{name}: mean -> kernel with the same slots; median over exactly the full groups; "
+                                                                      if verdict == "same" else "") + ("; ".join(why))[:500], construct=name, key=name)
 
     # ---- R2 running_filter length algebra --------------------------------------------------------------
     rf = prog.func(S, "running_filter")
@@ -103,16 +90,13 @@ def run(prog: Program, res: Result, tier: str) -> None:
         else:
             res.bad("R2", rf, pads[0], "left+right padding is not window-1 for both parities (" + "; ".join(detail) + "): output length differs "
                     "from the input length", key=key)
-    src = norm(rf.node)
-    checks = [
-        ("symmetric reflection padding", "padded_ar = np.pad(array, pad_size, 'symmetric')" in src),
-        ("moving filter of width `window` over the padded series", "filtered_ar = filter_func(padded_ar, window)" in src),
-        ("the first window-1 (incomplete) outputs are dropped", "return filtered_ar[window - 1:]" in src),
-        ("mean -> bn.move_mean, median -> bn.move_median; unknown method raises",
-         "'mean': bn.move_mean" in src and "'median': bn.move_median" in src and "if filter_func is None:" in src),
-    ]
-    for what, ok in checks:
-        (res.ok if ok else res.bad)("R2", rf, rf.node, what if ok else f"running_filter no longer satisfies: {what}", construct=what, key=f"running_filter:{what[:40]}")
+    verdict, why = kernelspec.compare(rf, "running_filter")
+    if verdict == "incomparable":
+        raise AnalysisError(f"running_filter cannot be compared with its reference definition: {why[0]}")
+    (res.ok if verdict == "same" else res.bad)(
+        "R2", rf, rf.node, ("symmetric padding by the parity-dependent sizes, moving filter of the caller's width over the padded series, first "
+                            "window-1 outputs dropped; " if verdict == "same" else "running_filter differs from its definition: ") + ("; ".join(why))[:500],
+        construct="running_filter", key="running_filter:definition")
 
     # ---- R3 deredden / containers ----------------------------------------------------------------------------
     dr = prog.func("sigpyproc.timeseries", "TimeSeries.deredden")
@@ -133,7 +117,7 @@ def run(prog: Program, res: Result, tier: str) -> None:
     (res.ok if ok else res.bad)("R3", bd, bd.node, "block.downsample: axis 0 (channels) by ffactor, axis 1 (time) by tfactor" if ok else
                                 "block.downsample no longer passes (ffactor, tfactor) for (channel, time) axes", construct="block.downsample", key="block.downsample")
     res.floor("R1", 9)
-    res.floor("R2", 5)
+    res.floor("R2", 2)
     res.floor("R3", 4)
 
 
@@ -163,7 +147,13 @@ MUTANTS = [
     {"id": "c14-2d-median-axes", "file": SF, "expect": "C14.R1",
      "old": "        result = np.median(arr_2d.reshape(new_shape), axis=(1, 3))", "new": "        result = np.median(arr_2d.reshape(new_shape), axis=(0, 2))"},
 ]
+MUTANTS += [
+    {"id": "c14-window-clamped", "file": SF, "expect": "C14.R2",
+     "old": "    pad_size = (\n        (window // 2, window // 2) if window % 2", "new": "    window = min(window, array.size)\n    pad_size = (\n        (window // 2, window // 2) if window % 2"},
+]
 TWINS = [
+    {"id": "c14-twin-running-inline", "file": SF,
+     "old": "    filtered_ar = filter_func(padded_ar, window)\n    return filtered_ar[window - 1 :]", "new": "    return filter_func(padded_ar, window)[window - 1 :]"},
     {"id": "c14-twin-ds1d-commuted", "file": KF,
      "old": "            temp += array[start + ifactor]\n", "new": "            temp += array[ifactor + start]\n"},
 ]
